@@ -1,5 +1,7 @@
 pub mod cli;
+pub mod framing;
 pub mod pure;
+pub mod robust;
 pub mod srv;
 
 use crate::runner::*;
@@ -82,6 +84,141 @@ pub fn property(id: &str) -> Option<Property> {
                 }),
             ],
             hang: HangPolicy::Inconclusive,
+        },
+        "C05" => Property {
+            id: "C05",
+            level: "exploration",
+            rule: "proptest: MBAP byte streams (1..24 request frames up to the 253-byte PDU maximum, distinct transaction ids, optionally a malformed header [protocol id != 0, length 0, length > 254] followed by frames that must never be interpreted) x 6..8 partitions per stream (whole, byte-per-byte, fixed sizes around 260/520, random cuts, cuts placed inside headers and bodies, first read filling the buffer exactly), server role; and client role: 1..6 queued requests whose reply streams (stale-id frames, genuine/exception reply or malformed header) are cut by 4..6 partitions. Oracle: metamorphic (every partition gives the same reply bytes, handler calls, state, results, completion instants and end reason) plus the reference: the one-frame-per-read run is judged by the reference server (C01/C02 oracles), the session ends with a framing error exactly at a malformed header. Non-trivial = stream of >=3 frames and >260 bytes with a partition cutting inside a header and inside a body (server) / >=2 requests with stale frames under a non-trivial partition (client).",
+            assumptions: SIM_ASSUMPTIONS_SRV,
+            searches: vec![
+                Box::new(Search {
+                    name: "c05_server_streams",
+                    rule: "see property rule (server role)",
+                    quick: 12_000,
+                    thorough: 300_000,
+                    strategy: framing::arb_c05_srv,
+                    check: framing::check_c05_srv,
+                    floors: &[("bad_header", 0.25), ("cut:inside_header", 0.60), ("cut:inside_body", 0.60), ("read:at_buffer_capacity", 0.30), ("stream:over_260", 0.40)],
+                    known: &[],
+                    hang_secs: 120,
+                    max_threads: 64,
+                }),
+                Box::new(Search {
+                    name: "c05_client_streams",
+                    rule: "see property rule (client role)",
+                    quick: 12_000,
+                    thorough: 300_000,
+                    strategy: c05_cli_strategy,
+                    check: framing::check_chunk_cli,
+                    floors: &[("stale_frames", 0.40), ("bad_header", 0.10)],
+                    known: &[],
+                    hang_secs: 120,
+                    max_threads: 64,
+                }),
+            ],
+            hang: HangPolicy::Inconclusive,
+        },
+        "C06" => Property {
+            id: "C06",
+            level: "fault_enumeration",
+            rule: "(a) emission: every frame written by generated RTU server sessions and RTU client requests must be one frame for the reference deframer, <=256 bytes, trailer = bitwise CRC-16/MODBUS low byte first. (b) acceptance: a valid request (server) / reply (client) frame delivered alone with one corruption: EVERY single-bit flip of the frame, every 2-bit pair for frames <=16 bytes, sampled 2..4-bit flips, bursts of 2..16 bits (first and last bit set) at sampled positions, swapped CRC bytes, one wrong CRC byte. Oracle: differential against the reference RTU deframer with an independent CRC: unless the reference finds a frame whose CRC verifies, no handler call, no byte written, no Ok/exception result. (c) chunking: RTU request streams under 5..7 partitions give identical replies/calls/state. Non-trivial = a frame whose uncorrupted form is acted on and has length-preserving corruptions.",
+            assumptions: SIM_ASSUMPTIONS_SRV,
+            searches: vec![
+                Box::new(Search {
+                    name: "c06_emit_server",
+                    rule: "emission, server role",
+                    quick: 40_000,
+                    thorough: 1_000_000,
+                    strategy: srv::arb_srv_case_rtu,
+                    check: framing::check_c06_emit_srv,
+                    floors: &[],
+                    known: &[],
+                    hang_secs: 120,
+                    max_threads: 64,
+                }),
+                Box::new(Search {
+                    name: "c06_corrupt_server",
+                    rule: "acceptance under corruption, server role (each case = one frame x all single-bit flips + pairs/bursts)",
+                    quick: 1_500,
+                    thorough: 40_000,
+                    strategy: framing::arb_c06_srv,
+                    check: framing::check_c06_srv,
+                    floors: &[("baseline:acts", 0.50), ("pairs:exhaustive", 0.30)],
+                    known: &[],
+                    hang_secs: 300,
+                    max_threads: 64,
+                }),
+                Box::new(Search {
+                    name: "c06_corrupt_client",
+                    rule: "emission of requests + acceptance of corrupted replies, client role",
+                    quick: 1_500,
+                    thorough: 40_000,
+                    strategy: framing::arb_c06_cli,
+                    check: framing::check_c06_cli,
+                    floors: &[("single_bit:exhaustive", 0.40)],
+                    known: &[],
+                    hang_secs: 300,
+                    max_threads: 64,
+                }),
+                Box::new(Search {
+                    name: "c06_chunking_server",
+                    rule: "RTU request streams under several partitions",
+                    quick: 8_000,
+                    thorough: 200_000,
+                    strategy: framing::arb_c06_chunk,
+                    check: framing::check_c06_chunk,
+                    floors: &[],
+                    known: &[],
+                    hang_secs: 120,
+                    max_threads: 64,
+                }),
+                Box::new(Search {
+                    name: "c06_chunking_client",
+                    rule: "RTU reply streams (incl. corrupted replies) under several partitions",
+                    quick: 8_000,
+                    thorough: 200_000,
+                    strategy: c06_cli_strategy,
+                    check: framing::check_chunk_cli,
+                    floors: &[],
+                    known: &[],
+                    hang_secs: 120,
+                    max_threads: 64,
+                }),
+            ],
+            hang: HangPolicy::Inconclusive,
+        },
+        "C07" => Property {
+            id: "C07",
+            level: "exploration",
+            rule: "proptest: {server, client} x {MBAP, RTU} x all 36 decode levels (formatting subscriber installed so Display/Loggable re-parsing runs) x byte streams built by grammar-aware mutation of valid traffic (bit flips, overwrites, truncation, duplication, insertion, deletion, 0xFF/0x00 runs) or raw random bytes, random chunking, read errors / EOF / parked endings, failing writes; client with 0..5 requests in flight or idle. Built with overflow checks and debug assertions. Oracle: no panic (catch_unwind), poll budget 64 x (input bytes + operations) + 4096 on the session/task future (deterministic stand-in for 'spins without progress'), a wall-clock watchdog for in-poll loops (confirmed by re-run), session ended with an error or parked and then ends on shutdown, handle keeps answering, every client request completes exactly once, task ends when handles are dropped. Non-trivial = a frame passed framing and reached PDU handling with a decode level other than nothing.",
+            assumptions: SIM_ASSUMPTIONS_SRV,
+            searches: vec![
+                Box::new(Search {
+                    name: "c07_server_streams",
+                    rule: "server role",
+                    quick: 200_000,
+                    thorough: 5_000_000,
+                    strategy: robust::arb_c07_srv,
+                    check: robust::check_c07_srv,
+                    floors: &[("reached_pdu", 0.40), ("decode:on", 0.80), ("end:parked", 0.10), ("framing:rtu", 0.30)],
+                    known: &[],
+                    hang_secs: 30,
+                    max_threads: 64,
+                }),
+                Box::new(Search {
+                    name: "c07_client_streams",
+                    rule: "client role",
+                    quick: 150_000,
+                    thorough: 4_000_000,
+                    strategy: robust::arb_c07_cli,
+                    check: robust::check_c07_cli,
+                    floors: &[("reached_pdu", 0.30), ("decode:on", 0.80), ("framing:rtu", 0.30)],
+                    known: &[],
+                    hang_secs: 30,
+                    max_threads: 64,
+                }),
+            ],
+            hang: HangPolicy::Violation,
         },
         "C08" => Property {
             id: "C08",
@@ -215,6 +352,14 @@ pub fn property(id: &str) -> Option<Property> {
     })
 }
 
+fn c05_cli_strategy() -> proptest::strategy::BoxedStrategy<framing::ChunkCli> {
+    framing::arb_chunk_cli(crate::simsrv::Fr::Mbap)
+}
+
+fn c06_cli_strategy() -> proptest::strategy::BoxedStrategy<framing::ChunkCli> {
+    framing::arb_chunk_cli(crate::simsrv::Fr::Rtu)
+}
+
 fn c11_wrap(ctx: &Ctx) -> SearchReport {
     let mut rep = SearchReport::empty(
         "c11_wrap",
@@ -253,4 +398,4 @@ const SIM_ASSUMPTIONS_CLI: &[&str] = &[
     "the byte-count field of read replies is not part of the statement's acceptance conditions: accepted-with-the-encoded-values and rejected are both allowed (counted)",
 ];
 
-pub const ALL: &[&str] = &["C01", "C02", "C03", "C04", "C08", "C11", "C12", "C17"];
+pub const ALL: &[&str] = &["C01", "C02", "C03", "C04", "C05", "C06", "C07", "C08", "C11", "C12", "C17"];
